@@ -139,6 +139,13 @@ func (c *Ctx) RunCases(cases []*Case, after func(cr *CaseResult)) {
 		cr.Model = block
 		c.R.Evaluations++
 		c.compareCase(cr)
+		// whatever the stage looks at: a panic of the library is a failing input by itself
+		for _, l := range cr.Impl {
+			if strings.HasPrefix(l, "PANIC") || l == "HELP PANIC" {
+				c.Check("library-never-panics", false, c.Prop+":panic", map[string]interface{}{"case": cr.Case.Description, "case_file": c.saveCase(cr)}, decodeLine(l), "normal return")
+				break
+			}
+		}
 		if after != nil {
 			after(cr)
 		}
